@@ -22,6 +22,7 @@ structure JOwner where
   rev : Nat
   paused : Bool
   pkgLabel : String
+  instLabel : Option String     -- package-instance label ("xlabels" / "xann" of the scenario are not read at all)
   deriving FromJson, Repr
 
 structure JPrev where
@@ -54,6 +55,7 @@ structure JSObj where
   ready : Bool
   obsGen : Int
   finalizer : Bool
+  inst : Option String          -- package-instance label ("xlabels" / "xann" are not read at all)
   deriving FromJson, Repr
 
 structure JEnv where
@@ -242,9 +244,66 @@ def eventsStr (w : World) : String :=
     | e :: rest => eventStr e :: go rest ap
   ";".intercalate (go w.events w.applied)
 
+/-! ### the package-instance label
+
+`desiredObject` stamps the owner's `package-operator.run/instance` label onto every object it
+applies, exactly as it does with the package label, and NOTHING in the modelled code reads it —
+which is what the C01 decision table guards: the concrete realisations of one abstract row differ
+in this label (and in further labels / annotations / controller kinds the model never sees).  The
+label is carried beside the model state: it can only make an otherwise unchanged apply a
+changing one, and it shows in the final objects (`~i=` suffix, printed only when present). -/
+
+/-- printed key ↦ value of the label ("" = absent) -/
+abbrev InstMap := List (String × String)
+
+def instOf (m : InstMap) (k : Key) : String := ((m.find? (·.1 == keyStr k)).map (·.2)).getD ""
+def instSet (m : InstMap) (k : Key) (v : String) : InstMap := (keyStr k, v) :: m.filter (·.1 != keyStr k)
+
+def instInit (s : Scn) : InstMap :=
+  (s.store.getD []).foldl (fun m o => instSet m ⟨o.kind, o.ns, o.name⟩ (o.inst.getD "")) []
+
+def ownerInst (s : Scn) : String := s.owner.instLabel.getD ""
+
+/-- effect of one apply by PKO: a created object carries what PKO applied only; on an existing
+one the owner's label (if it has one) replaces the object's.  Returns whether the label changed. -/
+def instApply (oi : String) (m : InstMap) (k : Key) (created : Bool) : InstMap × Bool :=
+  let cur := if created then "" else instOf m k
+  let new := if oi = "" then cur else oi
+  (instSet m k new, !created && new != cur)
+
+def instSuffix (v : String) : String := if v = "" then "" else "~i=" ++ v
+
+/-- `eventsStr` with the instance label tracked along the applies. -/
+def eventsStrI (s : Scn) (w : World) : String × InstMap :=
+  let oi := ownerInst s
+  let rec go (evs : List Event) (ap : List (Key × Obj)) (m : InstMap) : List String × InstMap :=
+    match evs with
+    | [] => ([], m)
+    | (.apply k c ch) :: rest =>
+      let (m', lch) := instApply oi m k c
+      let e := eventStr (.apply k c (ch || lch))
+      match ap with
+      | (_, o) :: ap' =>
+        let (r, mf) := go rest ap' m'
+        (s!"{e} r={revStr o.rev} c={(o.owners.filter (·.ctrl)).length}/{(o.annOwners.filter (·.ctrl)).length}" :: r, mf)
+      | [] =>
+        let (r, mf) := go rest [] m'
+        (e :: r, mf)
+    | e :: rest =>
+      let (r, mf) := go rest ap m
+      (eventStr e :: r, mf)
+  let (l, m) := go w.events w.applied (instInit s)
+  (";".intercalate l, m)
+
+def objStrI (m : InstMap) (k : Key) (o : Obj) : String := objStr k o ++ instSuffix (instOf m k)
+
+def finalStrI (s : Scn) (w : World) (m : InstMap) : String :=
+  ";".intercalate (sortStrings ((keysOf s).filterMap fun k => (w.store.get k).map (objStrI m k)))
+
 def model (s : Scn) : String :=
   let (o, w) := runModel s
-  s!"{o} # {eventsStr w} # {finalStr s w}"
+  let (evs, m) := eventsStrI s w
+  s!"{o} # {evs} # {finalStrI s w m}"
 
 /-! ### helpers for monitors: parse an implementation output line -/
 
